@@ -1017,7 +1017,7 @@ func runC18(ctx *vh.Ctx) error {
 	}
 	// (seeds k and k+1 of vh.Rand are one draw apart; forking passes through the mixer)
 	rng := ctx.Rng.Fork()
-	n := ctx.N(2000, 40000)
+	n := ctx.N(8000, 60000)
 	const batch = 250
 	for done := 0; done < n && ctx.TimeLeft(); done += batch {
 		var cs []*c18Case
